@@ -121,6 +121,8 @@ MIX_SEPS = ["/", "//", "\\", "\\/"]
 
 ROOT_KINDS = ["abs", "slash", "dot", "two"]
 CONFIGS = [{"roots": r, "mods": m} for r in ROOT_KINDS for m in (False, True)]
+# module paths chosen by the caller (modulename_callable), alone and together with a module directory
+CONFIGS += [{"roots": "abs", "mods": "callable"}, {"roots": "two", "mods": "callable+dir"}]
 TAG_FORMS = ["I", "X", "N", "A", "S"]
 FORM_NAMES = {
     "G": "get_template",
@@ -141,10 +143,12 @@ CALLER_SRC = {
 
 
 def cfg_id(roots, mods):
+    if isinstance(mods, str):
+        return [i for i, c in enumerate(CONFIGS) if c["roots"] == roots and c["mods"] == mods][0]
     return ROOT_KINDS.index(roots) * 2 + (1 if mods else 0)
 
 
-ALL_CFG = list(range(8))
+ALL_CFG = list(range(10))
 # plan rows: (forms, depths, config ids, max n for the pattern/abs families, max n for the separator-mix family)
 _AO = cfg_id("abs", False)
 _TM = cfg_id("two", True)
@@ -533,6 +537,13 @@ class World:
         md = None
         if cfg["mods"]:
             md = "./mods/." if cfg["roots"] == "dot" else self.T + "/mods"
+        if isinstance(cfg["mods"], str):
+            T = self.T
+
+            def named(filename, uri):
+                return T + "/mods/named/" + re.sub(r"\W", "_", uri) + "_%x.py" % (zlib.crc32(uri.encode("utf-8", "replace")) & 0xFFFF)
+
+            return LK(directories=self.directories(cfg), module_directory=md if cfg["mods"].endswith("+dir") else None, modulename_callable=named)
         return LK(directories=self.directories(cfg), module_directory=md)
 
     def caller_of(self, lk, form, depth):
